@@ -31,11 +31,15 @@ impl<T> Deref for Gc<T> {
 #[verifier::external_body]
 fn gc_eq<T>(a: Gc<T>, b: Gc<T>) -> (r: bool) ensures r == (a.id() == b.id()) { unimplemented!() }
 
+pub struct RefCell<T> { pub v: T }
 pub struct ObjString { }
 pub struct ObjClass { }
+pub struct ObjStringIter { } pub struct ObjFunction { } pub struct ObjNative { } pub struct ObjClosure { } pub struct ObjInstance { }
+pub struct ObjBoundMethod<T> { pub m: Gc<T> } pub struct ObjTupleIter { } pub struct ObjVecIter { } pub struct ObjRangeIter { }
+pub struct ObjModule { } pub struct ObjFiber { }
 //@struct file=yarel/src/object.rs name=ObjRange
 
-//@enum file=yarel/src/value.rs name=Value keep=Boolean,ObjString,ObjClass,ObjRange,None other=Other
+//@enum file=yarel/src/value.rs name=Value keep=Boolean,ObjString,ObjStringIter,ObjFunction,ObjNative,ObjClosure,ObjClass,ObjInstance,ObjBoundMethod,ObjBoundNative,ObjTupleIter,ObjVecIter,ObjRange,ObjRangeIter,ObjModule,ObjFiber,None other=Other
 
 // The abstract key: what a hashable value of these kinds denotes. Strings and classes are denoted by their heap cell
 // (C11: one cell per string content; a class is its declaration), a range by its two bounds.
@@ -50,23 +54,26 @@ pub open spec fn key_of(v: Value) -> Key
         Value::ObjClass(c) => Key::Class(c.id()),
         Value::ObjRange(r) => Key::Range(r.obj().begin as int, r.obj().end as int),
         Value::None => Key::Nil,
-        Value::Other => Key::Nil,
+        _ => Key::Nil,
     }
 }
+pub open spec fn is_key_kind(v: Value) -> bool { v is Boolean || v is ObjString || v is ObjClass || v is ObjRange || v is None }
 
 impl Value {
-    //@fn file=yarel/src/value.rs path="<cmp::PartialEq for Value>::eq" obname=Value::eq ret=r
-    //@  keep_arms Value Boolean,ObjString,ObjClass,ObjRange,None
+    //@fn file=yarel/src/value.rs path="<cmp::PartialEq for Value>::eq" obname=Value::eq ret=r props=C12,C05
+    //@  keep_arms Value Boolean,ObjString,ObjStringIter,ObjFunction,ObjNative,ObjClosure,ObjClass,ObjInstance,ObjBoundMethod,ObjBoundNative,ObjTupleIter,ObjVecIter,ObjRange,ObjRangeIter,ObjModule,ObjFiber,None
+    //@  subst "*first == *second" => "gc_eq(*first, *second)"
     //@  subst "(Value::ObjString(first), Value::ObjString(second)) => *first == *second" => "(Value::ObjString(first), Value::ObjString(second)) => gc_eq(*first, *second)"
     //@  subst "(Value::ObjClass(first), Value::ObjClass(second)) => *first == *second" => "(Value::ObjClass(first), Value::ObjClass(second)) => gc_eq(*first, *second)"
     //@  subst "(Value::ObjRange(first), Value::ObjRange(second)) => *first == *second" => "(Value::ObjRange(first), Value::ObjRange(second)) => gc_eq(*first, *second)"
-    //@  ensures @equal_keys_are_the_same_abstract_key !(*self is Other) && !(*other is Other) ==> r == (key_of(*self) == key_of(*other))
+    //@  ensures @equal_keys_are_the_same_abstract_key is_key_kind(*self) && is_key_kind(*other) ==> r == (key_of(*self) == key_of(*other))
+    //@  ensures @a_value_equals_itself (*self == *other && !(*self is Other)) ==> r
     //@  ensures @range_equality_does_not_depend_on_the_heap_cell forall|a: Gc<ObjRange>, b: Gc<ObjRange>| *self == Value::ObjRange(a) && *other == Value::ObjRange(b) ==> r == (a.obj().begin == b.obj().begin && a.obj().end == b.obj().end)
     //@end
 
     //@fn file=yarel/src/value.rs path=Value::has_hash ret=r
-    //@  keep_arms Value Boolean,ObjString,ObjClass,ObjRange,None
-    //@  ensures @these_kinds_are_accepted_as_keys !(*self is Other) ==> r
+    //@  keep_arms Value Boolean,ObjString,ObjStringIter,ObjFunction,ObjNative,ObjClosure,ObjClass,ObjInstance,ObjBoundMethod,ObjBoundNative,ObjTupleIter,ObjVecIter,ObjRange,ObjRangeIter,ObjModule,ObjFiber,None
+    //@  ensures @these_kinds_are_accepted_as_keys is_key_kind(*self) ==> r
     //@end
 }
 
